@@ -19,7 +19,8 @@ EXPLANATION = (
     "(== 2 MiB). Decides these clauses for every chunking, peer count and byte content; does NOT decide asyncio "
     "callback ordering or the behaviour of hashlib/BytesIO."
 )
-TECHNIQUE = "static analysis: CFG guard dominance (exact guard sets), must-precede ordering, who-may-call / who-may-write, constant folding"
+EXACTNESS = "Second pass (DESIGN.md §10, exactness / completeness halves) — the converse clause: exact acceptance set of `set_result`, exact refusals and failure conditions of `write`, start value 0, every loser closed, every new writer registered (a second writer for the same peer refused exactly while the first is open), `save_verified_blob` writes / verifies / announces exactly under its own tests and in write → verified → callback order."
+TECHNIQUE = "static analysis: CFG guard dominance (exact guard sets), must-precede ordering, who-may-call / who-may-write, constant folding; exact fact-set comparison of the tests dominating each effect and refusal (effect / refusal tables), fall-through path queries"
 NOT_DECIDED = ("that a verified blob holds exactly those bytes for a concrete interleaving (conjunction of the decided clauses "
                "with asyncio/BytesIO/hashlib behaviour, which is trusted)")
 ASSUMPTIONS = ["asyncio runs done-callbacks of a future/task after it completed, in registration order"]
